@@ -682,6 +682,42 @@ def impl_latex(case):
 
 # ------------------------------------------------------------------ parser / serializer (C11, C12)
 
+def _sympy_mod_sites(text):
+    """Call sites of known library defects the parsing of `text` goes through (known finding F21): sympy's Mod.eval,
+    'by ratio' branch, called with a symbolic divisor and a dividend that is a NEGATIVE non-integer rational multiple
+    of it, returning a simplified (non-Mod) result.  Decided by a second parse with a cleared cache and a watch on
+    Mod.eval, after the result under test was produced."""
+    from sympy.core.cache import clear_cache
+    from sympy.core.mod import Mod
+
+    from bartiq import sympy_backend as B
+
+    hits = []
+    orig = Mod.__dict__["eval"]
+
+    def watched(cls, p, q):
+        rv = orig.__func__(cls, p, q)
+        try:
+            if rv is not None and not isinstance(rv, Mod) and not (p.is_number and q.is_number):
+                r = p / q
+                if r.is_Rational and not r.is_integer and r < 0:
+                    hits.append("sympy.Mod.eval:by-ratio:negative-multiple-of-symbolic-divisor")
+        except Exception:
+            pass
+        return rv
+
+    try:
+        clear_cache()
+        Mod.eval = classmethod(watched)
+        B.as_expression(text)
+    except Exception:
+        pass
+    finally:
+        Mod.eval = orig
+        clear_cache()
+    return sorted(set(hits))
+
+
 def impl_parse(case):
     from bartiq import sympy_backend as B
 
@@ -689,7 +725,12 @@ def impl_parse(case):
         B.as_expression(t)        # what was parsed earlier in the process must not matter
     e = B.as_expression(case["text"])
     ex, inex = from_sympy(e)
-    return {"expr": ex, "inexact": inex}
+    out = {"expr": ex, "inexact": inex}
+    if "%" in case["text"] or "mod" in case["text"].lower():
+        sites = _sympy_mod_sites(case["text"])
+        if sites:
+            out["call_sites"] = sites
+    return out
 
 
 def impl_roundtrip(case):
